@@ -1,5 +1,6 @@
 import TypstyleModel.Proofs.Import
 import TypstyleModel.Proofs.Tokens
+import TypstyleModel.Props.RouteM
 /-! C19 — import items are reordered only on request, and then only permuted.  `importOrder` is
 the order in which `convert_import_items` hands the (flattened) item nodes to the list stylist;
 it is the only place of the model that reads `reorder`. -/
@@ -101,5 +102,32 @@ theorem C19_only_import_items_move (cfg : PConfig) (root : Node) (d : Twin.Doc)
 
 theorem C19_flag_off_tree_is_unchanged (cfg : PConfig) (h : cfg.reorder = false) (t : ANode) :
     reorderTree cfg t = t := reorderTree_off cfg h t
+
+/-- The printer sorts the *flattened* node list of an import — parentheses, commas and white space
+included.  **That orders the items among themselves exactly as sorting the items alone does**: for
+every node list, the items of the sorted list are the sorted items (for any sub-family in fact). -/
+theorem C19_sorting_the_flattened_list_sorts_the_items (nodes : List ANode) :
+    (stableSort importSortKey nodes).filter isImportItem = stableSort importSortKey (nodes.filter isImportItem) :=
+  filter_stableSort importSortKey isImportItem nodes
+
+/-- The sorted list is in order (pairwise, by the sort key). -/
+theorem C19_sorted_list_is_in_order (nodes : List ANode) :
+    List.Pairwise (fun a b => importSortKey a ≤ importSortKey b) (stableSort importSortKey nodes) :=
+  stableSort_psorted importSortKey nodes
+
+/-- Route M for import statements, no certificate: for every import statement of the covered fragment
+(items are paths or renamed items; separators, parentheses, white space, comments anywhere) whose items
+are already in order — or which is not sorted because it holds a comment or binds a name twice — and for
+**every configuration** (reordering on or off), whatever the printer returns renders, at every width and
+indent unit, to a layout that holds exactly the tokens and literals of the statement, in source order:
+no item is lost, duplicated or moved. -/
+theorem C19_fragment_import_keeps_every_item (e : Env) (fuel : Nat) (ctx : Ctx) (hctx : NM ctx) (n : ANode)
+    (hk : n.kind = .moduleImport) (hq : inFrag n = true)
+    (d : Twin.Doc) (k k' : St) (h : ((knot e fuel).expr ctx n).run k = .ok (d, k')) (u w : Nat) :
+    Pretty.tokText (Pretty.best w 0 [⟨0, .brk, d.fam u⟩]) = (specToks n).toList ∧
+    Pretty.litText (Pretty.best w 0 [⟨0, .brk, d.fam u⟩]) = (specLit n).toList := by
+  have hx : isExpr n = true := by unfold isExpr; rw [hk]; rfl
+  have := routeM_expr e fuel ctx hctx n hx hq d k k' h u w
+  exact ⟨this.1, this.2.2.2.1⟩
 
 end Typstyle
